@@ -252,7 +252,13 @@ pub unsafe fn io_uring_enter(fd: i32, to_submit: u32, min_complete: u32, flags: 
     crate::check_memory_ledger();
     let known = with_kernel(|k| {
         k.clock_ns += k.cfg.tick_ns;
-        k.rings.contains_key(&fd)
+        match k.rings.get_mut(&fd) {
+            Some(r) => {
+                r.ops.iter_mut().for_each(|o| o.rearm_multishot_poll());
+                true
+            }
+            None => false,
+        }
     });
     if !known {
         return -libc::EBADF;
